@@ -1,9 +1,9 @@
 (* C19 -- serialized objects round-trip exactly; malformed archives are rejected safely.
    Only the property theorems; proofs are in Proofs.v (chunk reader), Loader.v (arbitrary input),
    Roundtrip.v (load after save), Mutation.v (over-running length fields), Session.v (the session map format),
-   MutFull.v (every length field of a valid archive).
+   MutFull.v (every length field of a valid archive), Cursor.v (read position after a load; objects saved one after another).
    jp is the external JSON parser (parse + compact re-serialisation), a parameter of the model. *)
-From CppcmsV Require Import Base.Tac C19.Defs C19.Proofs C19.Loader C19.Roundtrip C19.Mutation C19.MutFull C19.SessDefs C19.Session.
+From CppcmsV Require Import Base.Tac C19.Defs C19.Proofs C19.Loader C19.Roundtrip C19.Mutation C19.MutFull C19.SessDefs C19.Session C19.Cursor C19.StoreFetch C19.Object C19.Unique C19.CountBound.
 Local Open Scope N_scope.
 
 (* 1. the repaired bounds test of archive::next_chunk_size, in size_t (mod 2^64) arithmetic:
@@ -42,6 +42,27 @@ Example load_nonvacuous :
   /\ load (fun _ => None) (TSeq TStr) [8;0;0;0; 1;0;0;0;0;0;0;0; 1;0;0;0;97] 0 = Ok (VList [VBytes [97]], 17).
 Proof. split; vm_compute; reflexivity. Qed.
 
+(* 3b. an element count that the archive cannot pay for is never accepted: the element loop runs exactly `count` times and every
+       element consumes at least min_size of its type, so a successful container load implies 12 + count * min_size <= bytes consumed.
+       (Void exactly when min_size = 0: containers of classes without serialized fields, see docs/C19.md, observations.) *)
+Theorem seq_count_bounded : forall jp e buf ptr l q,
+  blen buf < M64 -> ptr <= blen buf ->
+  load jp (TSeq e) buf ptr = Ok (VList l, q) ->
+  ptr + 12 + blen l * min_size e <= q /\ q <= blen buf.
+Proof. exact CountBound.seq_count_bounded. Qed.
+Print Assumptions seq_count_bounded.
+Theorem announced_count_affordable : forall step ins m (nf : Prop) buf ptr b p1 v q,
+  blen buf < M64 -> good_step buf m nf step ->
+  read_chunk buf ptr 8 = Ok (b, p1) ->
+  load_container step ins buf ptr = Ok (v, q) ->
+  p1 + le_val b * m <= q.
+Proof. exact CountBound.announced_count_affordable. Qed.
+Print Assumptions announced_count_affordable.
+Example count_bound_nonvacuous :
+  load (fun _ => None) (TSeq TStr) [8;0;0;0; 0;0;0;128;0;0;0;0; 1;0;0;0;97] 0 = Err EEof
+  /\ load (fun _ => None) (TSeq TStr) [8;0;0;0; 2;0;0;0;0;0;0;0; 0;0;0;0; 0;0;0;0] 0 = Ok (VList [VBytes []; VBytes []], 20).
+Proof. exact CountBound.count_bound_nonvacuous. Qed.
+
 (* 4. round trip: for every type of the universe and every well-formed value (chunks fit the
       uint32 length field, sets/maps hold distinct elements/keys, a json value is one the
       external parser reproduces), loading the saved archive gives the value back and ends
@@ -67,6 +88,124 @@ Example roundtrip_nonvacuous :
   wt (fun _ => None) ex_ty ex_val = true /\ elems_ok ex_ty = true /\ blen (enc ex_ty ex_val) = 114
   /\ load (fun _ => None) ex_ty (enc ex_ty ex_val) 0 = Ok (ex_val, 114).
 Proof. repeat split; vm_compute; reflexivity. Qed.
+
+(* 4b. the cursor discipline.  The archive is the concatenation of what the save calls wrote; the read position after loading an
+       object stands exactly behind the bytes its save produced (q - ptr = blen (enc t v)), for every value of the universe - in
+       particular an EMPTY std::vector of an arithmetic type or an empty string (a zero-length chunk, 00 00 00 00, which the loader
+       must consume) and an empty container (its count chunk), at any position. *)
+Theorem load_consumes_exactly : forall jp t v pre post,
+  wt jp t v = true -> elems_ok t = true -> blen (pre ++ enc t v ++ post) < M64 ->
+  exists q, load jp t (pre ++ enc t v ++ post) (blen pre) = Ok (v, q) /\ q - blen pre = blen (enc t v) /\ blen pre <= q.
+Proof. exact Cursor.load_consumes_exactly. Qed.
+Print Assumptions load_consumes_exactly.
+Theorem empty_podvec_consumed : forall jp sz pre post,
+  0 < sz -> blen (pre ++ [0;0;0;0] ++ post) < M64 ->
+  load jp (TPodVec sz) (pre ++ [0;0;0;0] ++ post) (blen pre) = Ok (VBytes [], blen pre + 4).
+Proof. exact Cursor.empty_podvec_consumed. Qed.
+Print Assumptions empty_podvec_consumed.
+Theorem empty_string_consumed : forall jp pre post,
+  blen (pre ++ [0;0;0;0] ++ post) < M64 ->
+  load jp TStr (pre ++ [0;0;0;0] ++ post) (blen pre) = Ok (VBytes [], blen pre + 4).
+Proof. exact Cursor.empty_string_consumed. Qed.
+Print Assumptions empty_string_consumed.
+Theorem empty_container_consumed : forall jp e pre post,
+  elems_ok (TSeq e) = true -> blen (pre ++ enc (TSeq e) (VList []) ++ post) < M64 ->
+  load jp (TSeq e) (pre ++ enc (TSeq e) (VList []) ++ post) (blen pre) = Ok (VList [], blen pre + 12).
+Proof. exact Cursor.empty_container_consumed. Qed.
+Print Assumptions empty_container_consumed.
+(* an empty vector<POD> that is not the last item: the member behind it is loaded unshifted *)
+Theorem empty_podvec_then_more : forall jp sz tb b,
+  0 < sz -> wt jp tb b = true -> elems_ok tb = true -> blen ([0;0;0;0] ++ enc tb b) < M64 ->
+  load jp (TPair (TPodVec sz) tb) ([0;0;0;0] ++ enc tb b) 0 = Ok (VPair (VBytes []) b, blen ([0;0;0;0] ++ enc tb b)).
+Proof. exact Cursor.empty_podvec_then_more. Qed.
+Print Assumptions empty_podvec_then_more.
+(* load (save a ++ save b) = a, then b *)
+Theorem load_two : forall jp ta a tb b,
+  wt jp ta a = true -> elems_ok ta = true -> wt jp tb b = true -> elems_ok tb = true ->
+  blen (enc ta a ++ enc tb b) < M64 ->
+  load jp ta (enc ta a ++ enc tb b) 0 = Ok (a, blen (enc ta a))
+  /\ load jp tb (enc ta a ++ enc tb b) (blen (enc ta a)) = Ok (b, blen (enc ta a ++ enc tb b)).
+Proof. exact Cursor.load_two. Qed.
+Print Assumptions load_two.
+(* ... and for any number of objects of any types saved one after another (enc_all = concatenation of their archives,
+   load_all = one load after the other, each starting where the previous one stopped) *)
+Theorem archive_is_concatenation : forall jp l,
+  all_ok jp l -> blen (enc_all l) < M64 ->
+  load_all jp (map fst l) (enc_all l) 0 = Ok (map snd l, blen (enc_all l)).
+Proof. exact Cursor.archive_is_concatenation. Qed.
+Print Assumptions archive_is_concatenation.
+Theorem archive_is_concatenation_embedded : forall jp l pre post,
+  all_ok jp l -> blen (pre ++ enc_all l ++ post) < M64 ->
+  load_all jp (map fst l) (pre ++ enc_all l ++ post) (blen pre) = Ok (map snd l, blen pre + blen (enc_all l)).
+Proof. exact Cursor.load_all_enc_all. Qed.
+Print Assumptions archive_is_concatenation_embedded.
+(* non-vacuity: seven objects with empty POD vectors / strings / containers in first, middle and last positions; and the loader
+   that returns early for n = 0 (load_podvec_early: no read_chunk call for an empty vector) does NOT have the property:
+   { {}, "tail" } comes back as { {}, "" } with the read position 4 instead of 12 *)
+Example cursor_nonvacuous :
+  all_ok (fun _ => None) seq_items /\ blen (enc_all seq_items) = 95
+  /\ load_all (fun _ => None) (map fst seq_items) (enc_all seq_items) 0 = Ok (map snd seq_items, 95).
+Proof. exact sequence_nonvacuous. Qed.
+Example early_return_loader_shifts :
+  enc (TPair (TPodVec 4) TStr) tail_val = [0;0;0;0; 4;0;0;0;116;97;105;108]
+  /\ load (fun _ => None) (TPair (TPodVec 4) TStr) (enc (TPair (TPodVec 4) TStr) tail_val) 0 = Ok (tail_val, 12)
+  /\ pair_early (enc (TPair (TPodVec 4) TStr) tail_val) = Ok (VPair (VBytes []) (VBytes []), 4).
+Proof. exact early_return_shifts. Qed.
+
+(* 4c. the archive OBJECT (buffer_, ptr_, mode_) with its operations: operator<< appends; operator>> loads at ptr_ and advances it;
+       operator& saves or loads depending on mode(); mode(m) and reset() set ptr_ = 0; str(s) replaces the buffer, selects load mode
+       and sets ptr_ = 0.  Any number of objects saved into a fresh archive come back, in order, after mode(load) / reset() /
+       str(str()), with eof() at the end; the serialize(a){ a & f1 & f2 ... } idiom round-trips through the same function. *)
+Theorem object_roundtrip : forall jp l,
+  all_ok jp l -> blen (enc_all l) < M64 ->
+  exists a', loadv_all jp (map fst l) (a_mode true (save_all l a_new)) = Ok (map snd l, a')
+             /\ a_eof a' = true /\ a_ptr a' = blen (enc_all l) /\ a_buf a' = enc_all l.
+Proof. exact Object.object_roundtrip. Qed.
+Print Assumptions object_roundtrip.
+Theorem serialize_idiom_roundtrip : forall jp l old,
+  all_ok jp l -> blen (enc_all l) < M64 -> map fst old = map fst l ->
+  exists a1 a2,
+    amp_all jp l a_new = Ok (map snd l, a1)
+    /\ amp_all jp old (a_mode true a1) = Ok (map snd l, a2)
+    /\ a_eof a2 = true.
+Proof. exact Object.serialize_idiom_roundtrip. Qed.
+Print Assumptions serialize_idiom_roundtrip.
+Theorem reset_rereads : forall jp l a',
+  all_ok jp l -> blen (enc_all l) < M64 ->
+  loadv_all jp (map fst l) (a_mode true (save_all l a_new)) = Ok (map snd l, a') ->
+  exists a'', loadv_all jp (map fst l) (a_reset a') = Ok (map snd l, a'') /\ a_eof a'' = true.
+Proof. exact Object.reset_rereads. Qed.
+Print Assumptions reset_rereads.
+Theorem str_roundtrip : forall jp l a0,
+  all_ok jp l -> blen (enc_all l) < M64 ->
+  exists a', loadv_all jp (map fst l) (a_set_str (a_get_str (save_all l a_new)) a0) = Ok (map snd l, a') /\ a_eof a' = true.
+Proof. exact Object.str_roundtrip. Qed.
+Print Assumptions str_roundtrip.
+Example object_nonvacuous :
+  match loadv_all (fun _ => None) (map fst seq_items) (a_mode true (save_all seq_items a_new)) with
+  | Ok (vs, a') => vs = map snd seq_items /\ a_eof a' = true /\ a_ptr a' = 95
+  | Err _ => False
+  end
+  /\ a_eof (a_mode true (save_all seq_items a_new)) = false
+  /\ a_loadv (fun _ => None) TStr (a_mode true a_new) = Err EEof.
+Proof. exact Object.object_nonvacuous. Qed.
+
+(* 4d. the format is unambiguous: the archive of an object is never a proper prefix of the archive of another object of the same
+       type, and different objects have different archives (this is why objects are written one after another without separators) *)
+Theorem enc_prefix_free : forall jp t v1 v2 rest,
+  wt jp t v1 = true -> wt jp t v2 = true -> elems_ok t = true -> blen (enc t v2) < M64 ->
+  enc t v2 = enc t v1 ++ rest -> rest = [] /\ v1 = v2.
+Proof. exact Unique.enc_prefix_free. Qed.
+Print Assumptions enc_prefix_free.
+Theorem enc_injective : forall jp t v1 v2,
+  wt jp t v1 = true -> wt jp t v2 = true -> elems_ok t = true -> blen (enc t v2) < M64 ->
+  enc t v1 = enc t v2 -> v1 = v2.
+Proof. exact Unique.enc_injective. Qed.
+Print Assumptions enc_injective.
+Example unambiguous_nonvacuous :
+  enc (TSeq TStr) (VList [VBytes []; VBytes [97]]) <> enc (TSeq TStr) (VList [VBytes [97]; VBytes []])
+  /\ blen (enc (TSeq TStr) (VList [VBytes []; VBytes [97]])) = blen (enc (TSeq TStr) (VList [VBytes [97]; VBytes []])).
+Proof. split; [vm_compute; discriminate|vm_compute; reflexivity]. Qed.
 
 (* 5. every strict truncation of a valid archive is rejected *)
 Theorem truncation_rejected : forall jp t v k,
@@ -169,6 +308,37 @@ Example session_roundtrip_nonvacuous :
   save_data ex_sess = SOk [1;28;0;0;97;1;0;2; 0;0;0;0; 3;8;0;0;98;0;99;255]
   /\ sess_keys_distinct ex_sess = true /\ load_data [1;28;0;0;97;1;0;2; 0;0;0;0; 3;8;0;0;98;0;99;255] = SOk ex_sess.
 Proof. repeat split; vm_compute; reflexivity. Qed.
+
+(* 8b. the convenience calls: session_interface::store_data(key, obj) = set(key, archive bytes of obj), fetch_data(key, obj) = load from
+       get(key) (None = the "Undefined session key" exception).  fetch_data after store_data returns the object, at once and in the next
+       request (after the whole map went through save_data -> storage -> load_data -> data[key] = entry); other keys are untouched.
+       cache_interface::store_data / fetch_data are the same two steps around the cache's store / fetch of the byte string. *)
+Theorem fetch_after_store : forall jp t v k m,
+  wt jp t v = true -> elems_ok t = true -> blen (enc t v) < M64 ->
+  fetch_data jp t k (store_data t k v m) = Some (Ok (v, blen (enc t v))).
+Proof. exact StoreFetch.fetch_after_store. Qed.
+Print Assumptions fetch_after_store.
+Theorem store_keeps_other_keys : forall jp t v k k2 m,
+  leqb k k2 = false -> fetch_data jp t k (store_data t k2 v m) = fetch_data jp t k m.
+Proof. exact StoreFetch.store_keeps_other_keys. Qed.
+Print Assumptions store_keeps_other_keys.
+Theorem fetch_in_next_request : forall jp t v k m s,
+  wt jp t v = true -> elems_ok t = true -> blen (enc t v) < M64 ->
+  sess_keys_distinct m = true -> save_data (store_data t k v m) = SOk s ->
+  match load_data s with
+  | SOk l => fetch_data jp t k (sess_map l) = Some (Ok (v, blen (enc t v)))
+  | SErr _ => False
+  end.
+Proof. exact StoreFetch.fetch_in_next_request. Qed.
+Print Assumptions fetch_in_next_request.
+Example store_fetch_nonvacuous :
+  fetch_data (fun _ => None) sf_t [111;98;106] (store_data sf_t [111;98;106] sf_v sf_m) = Some (Ok (sf_v, 20))
+  /\ fetch_data (fun _ => None) sf_t [113] sf_m = None
+  /\ match save_data (store_data sf_t [111;98;106] sf_v sf_m) with
+     | SOk s => match load_data s with SOk l => fetch_data (fun _ => None) sf_t [111;98;106] (sess_map l) = Some (Ok (sf_v, 20)) | SErr _ => False end
+     | SErr _ => False
+     end.
+Proof. split; [|split]; vm_compute; reflexivity. Qed.
 
 (* 9. load_data on arbitrary bytes: it returns records that tile the buffer exactly (4 + key + value
       bytes each, summing to the buffer length: nothing outside the buffer is returned) or throws one of
